@@ -1,12 +1,14 @@
 // Driver for C11: runs the real signingRetryLoop.start / dkgRetryLoop.start (through the
 // verif-tagged exports in pkg/tbtc) with scripted collaborators — waitForBlockFn,
 // getCurrentBlockFn, announcer, done check and attempt functions — and records, per loop
-// iteration, every block number and attempt number the loop hands to them.  The Coq model
-// (Model/C11.v) replays the same script.
+// iteration, every block number and attempt number the loop hands to them, the current block it
+// was told, and the chain's TRUE height at that time.  The Coq model (Model/C11.v) replays the
+// same script; the executable property is evaluated against the true height.
 //
-// Nothing is decided by wall-clock time: the cancel-on-block watcher goroutines started by the
-// loop are met at deterministic rendezvous points (the scripted Announce / Listen calls wait until
-// the watcher started just before them has registered).
+// The collaborators are total (see "the scripted world"): a loop that calls them more often, less
+// often or in another order than the production loop still terminates with an observable.
+// Nothing is decided by wall-clock time on the unchanged code: watcher goroutines are awaited by
+// counting goroutines (a 5 s fallback exists only for goroutines that never reach waitForBlockFn).
 package main
 
 import (
@@ -16,9 +18,11 @@ import (
 	"fmt"
 	"math/big"
 	"os"
+	"runtime"
 	"strconv"
 	"strings"
 	"sync"
+	"time"
 
 	golog "github.com/ipfs/go-log/v2"
 
@@ -32,14 +36,15 @@ import (
 )
 
 type stepIn struct {
-	Cancel int     `json:"cancel"` // 0 none; 1 getCurrentBlock, 2 wait, 3 Announce, 4 attempt, 6 waitUntilAllDone
-	Cur    *uint64 `json:"cur"`    // nil = getCurrentBlockFn fails
-	Wait   bool    `json:"wait"`   // waitForBlockFn(announcement start) succeeds
-	AnnErr bool    `json:"ann_err"`
-	Ann    []int   `json:"ann"` // ready members returned by Announce
-	Att    bool    `json:"att"`
-	Sig    bool    `json:"sig"`
-	Done   bool    `json:"done"`
+	Cancel int    `json:"cancel"`  // 0 none; 1 getCurrentBlock, 2 wait, 3 Announce, 4 attempt, 6 waitUntilAllDone
+	Height uint64 `json:"height"`  // the chain's TRUE height during this iteration
+	CurErr bool   `json:"cur_err"` // getCurrentBlockFn fails (otherwise it answers Height)
+	Wait   bool   `json:"wait"`    // waitForBlockFn(announcement start) succeeds
+	AnnErr bool   `json:"ann_err"`
+	Ann    []int  `json:"ann"` // ready members returned by Announce
+	Att    bool   `json:"att"`
+	Sig    bool   `json:"sig"`
+	Done   bool   `json:"done"`
 }
 
 type input struct {
@@ -83,124 +88,189 @@ func members(l []group.MemberIndex) string {
 }
 
 // ---- the scripted world
+//
+// Every collaborator is TOTAL: whatever the loop calls, in whatever order and however often, the
+// call gets a defined answer and is recorded; nothing here waits for a call the loop might not make.
+//
+//   - The loop's own calls (made on the goroutine that runs start) are told apart from the
+//     cancel-on-block watcher goroutines by goroutine identity, not by call order.
+//   - The collaborators have a fixed order inside one iteration of either loop (current block 1,
+//     wait 2, Announce 3, listen 4, attempt 5, signalDone 6, waitUntilAllDone 7).  A call whose
+//     rank is not above the rank of the previous call opens a new iteration = the next script
+//     step.  (The real signing loop opens every iteration with getCurrentBlockFn, the real
+//     key-generation loop with waitForBlockFn, so there the iterations are the loop's own.)
+//   - A loop that outruns its script has its context cancelled and gets errors from every
+//     collaborator; a loop that keeps going for runawayIterations more iterations is stopped by a
+//     panic raised inside the collaborator it called (observable: OPanic).
+//   - Watcher goroutines are awaited by counting goroutines (those started by the loop and not
+//     yet arrived in waitForBlock), so a loop that starts no watcher is not waited for.
+//   - The chain has a TRUE height during every iteration (stepIn.Height) whether or not the loop
+//     asks for it; it is recorded per iteration next to what the loop did.
+const (
+	stCur = iota + 1
+	stWait
+	stAnn
+	stListen
+	stAttempt
+	stSignal
+	stDone
+)
+
+const runawayIterations = 8
+
 type world struct {
 	mu   sync.Mutex
-	cond *sync.Cond
 	in   input
 	sign bool
 
-	idx            int // index of the current script step, -1 before the first iteration
-	its            []*iterObs
-	expectMainWait bool
-	watchSeen      int
-	watchExpected  int
-	exhausted      bool
-	lastTimeout    uint64
-	cancel         context.CancelFunc
+	mainGID     uint64
+	idx         int // index of the current script step, -1 before the first iteration
+	stage       int
+	its         []*iterObs
+	truth       []uint64
+	live        int // watcher goroutines parked in waitForBlock
+	watchSeen   int
+	watchMark   int
+	exhausted   bool
+	anomalies   []string
+	over        stepIn
+	lastTimeout uint64
+	cancel      context.CancelFunc
 }
 
-func (w *world) cur() *iterObs { return w.its[len(w.its)-1] }
-
-// begin a new iteration; returns the script step or nil when the script is used up
-func (w *world) begin() *stepIn {
-	w.idx++
-	w.its = append(w.its, newIter())
-	if w.idx >= len(w.in.Script) {
-		w.exhausted = true
-		w.cancel()
-		return nil
+func goid() uint64 {
+	var buf [64]byte
+	n := runtime.Stack(buf[:], false)
+	f := strings.Fields(string(buf[:n]))
+	if len(f) < 2 {
+		return 0
 	}
-	return &w.in.Script[w.idx]
+	id, _ := strconv.ParseUint(f[1], 10, 64)
+	return id
 }
 
-func (w *world) step() *stepIn {
-	if w.idx < 0 || w.idx >= len(w.in.Script) {
-		return nil
+// goroutines alive before the first case; stray goroutines (started by a loop, never arriving in
+// waitForBlock and never ending): learnt once, then ignored
+var baseGoroutines, strayGoroutines int
+
+// settle waits until every goroutine the loop has started so far has arrived in waitForBlock
+// (callers do not hold w.mu).  wantNew: the real code has just started a watcher; its arrival
+// alone is enough.  The fallback limit is reached only if goroutines are started that never call
+// waitForBlock; they are then counted as permanent.
+func (w *world) settle(wantNew bool) {
+	t0 := time.Now()
+	for i := 0; ; i++ {
+		w.mu.Lock()
+		live, seen, mark := w.live, w.watchSeen, w.watchMark
+		w.mu.Unlock()
+		pending := runtime.NumGoroutine() - baseGoroutines - strayGoroutines - live
+		if pending <= 0 || (wantNew && seen > mark) {
+			return
+		}
+		if i < 200 {
+			runtime.Gosched()
+		} else {
+			time.Sleep(20 * time.Microsecond)
+		}
+		if i%256 == 255 && time.Since(t0) > 5*time.Second {
+			strayGoroutines += pending
+			w.mu.Lock()
+			w.anomalies = append(w.anomalies, fmt.Sprintf("%d goroutine(s) never reached waitForBlock", pending))
+			w.mu.Unlock()
+			return
+		}
 	}
-	return &w.in.Script[w.idx]
+}
+
+// enter records a call of rank st made by the loop itself and returns the script step that
+// answers it (callers hold w.mu).
+func (w *world) enter(st int) *stepIn {
+	w.watchMark = w.watchSeen
+	if len(w.its) == 0 || st <= w.stage {
+		w.idx++
+		w.its = append(w.its, newIter())
+		h := w.over.Height
+		if w.idx < len(w.in.Script) {
+			h = w.in.Script[w.idx].Height
+			w.over.Height = h
+		} else {
+			w.exhausted = true
+			w.cancel()
+			if w.idx >= len(w.in.Script)+runawayIterations {
+				w.truth = append(w.truth, h)
+				panic("runaway loop: still iterating long after the end of the script")
+			}
+		}
+		w.truth = append(w.truth, h)
+	}
+	w.stage = st
+	if w.idx < len(w.in.Script) {
+		return &w.in.Script[w.idx]
+	}
+	return &w.over // every answer is a failure
+}
+
+func (w *world) cur() *iterObs {
+	if len(w.its) == 0 { // a watcher before any call of the loop
+		w.its = append(w.its, newIter())
+		w.truth = append(w.truth, w.over.Height)
+	}
+	return w.its[len(w.its)-1]
 }
 
 func (w *world) getCurrentBlock() (uint64, error) {
+	w.settle(false)
 	w.mu.Lock()
 	defer w.mu.Unlock()
-	s := w.begin()
-	w.expectMainWait = true
-	if s == nil {
-		w.cur().cur = "(Some None)"
-		return 0, errors.New("script exhausted")
-	}
+	s := w.enter(stCur)
 	if s.Cancel == 1 {
 		w.cancel()
 	}
-	if s.Cur == nil {
+	if s.CurErr {
 		w.cur().cur = "(Some None)"
 		return 0, errors.New("scripted current block failure")
 	}
-	w.cur().cur = "(Some (Some " + lib.ZU(*s.Cur) + "))"
-	return *s.Cur, nil
+	w.cur().cur = "(Some (Some " + lib.ZU(s.Height) + "))"
+	return s.Height, nil
 }
 
 func (w *world) waitForBlock(ctx context.Context, block uint64) error {
-	w.mu.Lock()
-	if w.expectMainWait {
-		// the loop's own wait for the announcement start block
-		w.expectMainWait = false
-		var s *stepIn
-		if w.sign {
-			s = w.step()
-		} else {
-			s = w.begin()
-		}
-		defer w.mu.Unlock()
-		if s == nil {
-			w.cur().wait = "(Some (" + lib.ZU(block) + ", false))"
-			return errors.New("script exhausted")
-		}
-		if s.Cancel == 2 {
-			w.cancel()
-		}
-		w.cur().wait = fmt.Sprintf("(Some (%s, %s))", lib.ZU(block), lib.Bool(s.Wait))
-		if !s.Wait {
-			if !w.sign {
-				w.expectMainWait = true
-			}
-			return errors.New("scripted wait failure")
-		}
+	if goid() != w.mainGID {
+		// a cancel-on-block watcher goroutine: parked until the loop's context is over
+		w.mu.Lock()
+		w.cur().watch = append(w.cur().watch, lib.ZU(block))
+		w.watchSeen++
+		w.live++
+		w.mu.Unlock()
+		<-ctx.Done()
+		w.mu.Lock()
+		w.live--
+		w.mu.Unlock()
 		return nil
 	}
-	// a cancel-on-block watcher goroutine
-	w.cur().watch = append(w.cur().watch, lib.ZU(block))
-	w.watchSeen++
-	w.cond.Broadcast()
-	w.mu.Unlock()
-	<-ctx.Done()
+	// the loop's own wait for the announcement start block
+	w.settle(false)
+	w.mu.Lock()
+	defer w.mu.Unlock()
+	s := w.enter(stWait)
+	if s.Cancel == 2 {
+		w.cancel()
+	}
+	w.cur().wait = fmt.Sprintf("(Some (%s, %s))", lib.ZU(block), lib.Bool(s.Wait))
+	if !s.Wait {
+		return errors.New("scripted wait failure")
+	}
 	return nil
 }
 
-// awaitWatcher blocks until the watcher goroutine started just before the calling collaborator
-// has registered (callers hold w.mu)
-func (w *world) awaitWatcher() {
-	w.watchExpected++
-	for w.watchSeen < w.watchExpected {
-		w.cond.Wait()
-	}
-}
-
 func (w *world) Announce(ctx context.Context, memberIndex group.MemberIndex, sessionID string) ([]group.MemberIndex, error) {
+	w.settle(true)
 	w.mu.Lock()
 	defer w.mu.Unlock()
-	w.awaitWatcher()
-	if !w.sign {
-		w.expectMainWait = true
-	}
+	s := w.enter(stAnn)
 	n := uint64(0)
 	if i := strings.LastIndex(sessionID, "-"); i >= 0 && sessionID[:i] == w.in.Msg {
 		n, _ = strconv.ParseUint(sessionID[i+1:], 10, 64)
-	}
-	s := w.step()
-	if s == nil {
-		w.cur().ann = "(Some (" + lib.N(n) + ", None))"
-		return nil, errors.New("script exhausted")
 	}
 	if s.Cancel == 3 {
 		w.cancel()
@@ -221,52 +291,70 @@ func (w *world) Announce(ctx context.Context, memberIndex group.MemberIndex, ses
 }
 
 func (w *world) Listen(ctx context.Context, message *big.Int, attemptNumber uint64, attemptTimeoutBlock uint64, attemptMembersIndexes []group.MemberIndex) {
+	w.settle(true)
 	w.mu.Lock()
 	defer w.mu.Unlock()
-	w.awaitWatcher()
+	w.enter(stListen)
 	w.lastTimeout = attemptTimeoutBlock
 	w.cur().listen = fmt.Sprintf("(Some (%s, %s, %s))", lib.N(attemptNumber), lib.ZU(attemptTimeoutBlock), members(attemptMembersIndexes))
 }
 
 func (w *world) attempt(p *tbtc.VerifC11AttemptParams) bool {
+	w.settle(false)
 	w.mu.Lock()
 	defer w.mu.Unlock()
-	s := w.step()
-	ok := s != nil && s.Att
-	if s != nil && s.Cancel == 4 {
+	s := w.enter(stAttempt)
+	if s.Cancel == 4 {
 		w.cancel()
 	}
 	w.lastTimeout = p.TimeoutBlock
 	w.cur().attempt = fmt.Sprintf("(Some (%s, %s, %s, %s, %s))", lib.N(uint64(p.Number)), lib.ZU(p.StartBlock),
-		lib.ZU(p.TimeoutBlock), members(p.ExcludedMembersIndexes), lib.Bool(ok))
-	return ok
+		lib.ZU(p.TimeoutBlock), members(p.ExcludedMembersIndexes), lib.Bool(s.Att))
+	return s.Att
 }
 
 func (w *world) SignalDone(ctx context.Context, memberIndex group.MemberIndex, message *big.Int, attemptNumber uint64, result *signing.Result, endBlock uint64) error {
+	w.settle(false)
 	w.mu.Lock()
 	defer w.mu.Unlock()
-	s := w.step()
-	ok := s != nil && s.Sig
-	w.cur().signal = "(Some " + lib.Bool(ok) + ")"
-	if !ok {
+	s := w.enter(stSignal)
+	w.cur().signal = "(Some " + lib.Bool(s.Sig) + ")"
+	if !s.Sig {
 		return errors.New("scripted signalDone failure")
 	}
 	return nil
 }
 
 func (w *world) WaitUntilAllDone(ctx context.Context) (*signing.Result, uint64, error) {
+	w.settle(false)
 	w.mu.Lock()
 	defer w.mu.Unlock()
-	s := w.step()
-	ok := s != nil && s.Done
-	if s != nil && s.Cancel == 6 {
+	s := w.enter(stDone)
+	if s.Cancel == 6 {
 		w.cancel()
 	}
-	w.cur().done = "(Some " + lib.Bool(ok) + ")"
-	if !ok {
+	w.cur().done = "(Some " + lib.Bool(s.Done) + ")"
+	if !s.Done {
 		return nil, 0, errors.New("scripted waitUntilAllDone failure")
 	}
 	return &signing.Result{}, 0, nil
+}
+
+// drain waits until the watcher goroutines of a finished loop are gone (bounded: goroutines that
+// stay are counted as permanent from then on)
+func drain() {
+	t0 := time.Now()
+	for i := 0; runtime.NumGoroutine()-strayGoroutines > baseGoroutines; i++ {
+		if i < 200 {
+			runtime.Gosched()
+		} else {
+			time.Sleep(20 * time.Microsecond)
+		}
+		if i%256 == 255 && time.Since(t0) > 5*time.Second {
+			strayGoroutines = runtime.NumGoroutine() - baseGoroutines
+			return
+		}
+	}
 }
 
 func classify(err error) string {
@@ -287,9 +375,16 @@ func classify(err error) string {
 
 func runLoop(in input) (w *world, outcome string, seed int64) {
 	ctx, cancel := context.WithCancel(context.Background())
-	w = &world{in: in, sign: in.Kind == "sign", idx: -1, cancel: cancel, expectMainWait: in.Kind != "sign"}
-	w.cond = sync.NewCond(&w.mu)
-	defer cancel()
+	w = &world{in: in, sign: in.Kind == "sign", idx: -1, cancel: cancel, mainGID: goid(),
+		over: stepIn{CurErr: true, AnnErr: true}}
+	if len(in.Script) > 0 {
+		w.over.Height = in.Script[0].Height
+	}
+	defer func() {
+		w.settle(false) // watchers started last have arrived
+		cancel()
+		drain()
+	}()
 	ops := make(chain.Addresses, len(in.Ops))
 	for i, s := range in.Ops {
 		ops[i] = chain.Address(s)
@@ -356,14 +451,11 @@ func run(in input, em *lib.Emitter, id string) {
 		ids[i] = rank[s]
 	}
 	w, outcome, seed := runLoop(in)
-	if w.exhausted {
-		outcome = "OExhausted"
-	}
 	steps := make([]string, len(in.Script))
 	for i, s := range in.Script {
 		cur := "None"
-		if s.Cur != nil {
-			cur = "(Some " + lib.ZU(*s.Cur) + ")"
+		if !s.CurErr {
+			cur = "(Some " + lib.ZU(s.Height) + ")"
 		}
 		steps[i] = fmt.Sprintf("{| st_cancel := %s; st_cur := %s; st_wait := %s; st_ann := %s; st_att := %s; st_sig := %s; st_done := %s |}",
 			lib.N(uint64(s.Cancel)), cur, lib.Bool(s.Wait), optList(s), lib.Bool(s.Att), lib.Bool(s.Sig), lib.Bool(s.Done))
@@ -386,16 +478,26 @@ func run(in input, em *lib.Emitter, id string) {
 	if in.Kind == "dkg" {
 		kind = "KDkg"
 	}
-	coq := fmt.Sprintf("{| c_kind := %s; c_ops := %s; c_count := %s; c_seed := %s; c_self := %s; c_limit := %s; c_start := %s; c_script := %s; c_its := %s; c_out := %s |}",
+	truth := make([]string, len(w.truth))
+	for i, h := range w.truth {
+		truth[i] = lib.ZU(h)
+	}
+	coq := fmt.Sprintf("{| c_kind := %s; c_ops := %s; c_count := %s; c_seed := %s; c_self := %s; c_limit := %s; c_start := %s; c_script := %s; c_its := %s; c_truth := %s; c_out := %s |}",
 		kind, lib.ListN(ids), lib.N(uint64(in.Count)), lib.Z(seed), lib.N(uint64(in.Self)), lib.N(uint64(in.Limit)),
-		lib.ZU(in.Start), lib.List(steps), lib.List(its), outcome)
+		lib.ZU(in.Start), lib.List(steps), lib.List(its), lib.List(truth), outcome)
 	out := strings.SplitN(strings.Trim(outcome, "()"), " ", 2)[0]
 	em.Tally(in.Kind + "-outcome-" + out)
 	em.Tally(fmt.Sprintf("%s-iterations-%02d", in.Kind, len(w.its)))
 	em.Tally(fmt.Sprintf("%s-attempt-calls-%d", in.Kind, nAtt))
 	obs := make([]string, len(w.its))
 	for i, it := range w.its {
-		obs[i] = it.coq()
+		obs[i] = fmt.Sprintf("true chain height %d: %s", w.truth[i], it.coq())
+	}
+	if w.exhausted {
+		em.Tally(in.Kind + "-outran-its-script")
+	}
+	for range w.anomalies {
+		em.Tally("anomaly-goroutine-never-reached-waitForBlock")
 	}
 	em.Case(lib.Case{
 		ID:         id,
@@ -404,7 +506,8 @@ func run(in input, em *lib.Emitter, id string) {
 		Nontrivial: len(w.its) >= 3 && nAnn >= 2 && (nAtt >= 1 || nListen >= 1),
 		Sig:        map[string]interface{}{"kind": in.Kind, "outcome": out},
 		In:         in,
-		Out:        map[string]interface{}{"iterations": obs, "outcome": outcome, "attempt_seed": seed},
+		Out: map[string]interface{}{"iterations": obs, "outcome": outcome, "attempt_seed": seed,
+			"outran_script": w.exhausted, "anomalies": w.anomalies},
 	})
 }
 
@@ -434,8 +537,6 @@ func layout(r *lib.Rng, counts []int) []string {
 	}
 	return out
 }
-
-func u64(v uint64) *uint64 { return &v }
 
 // steering only (never used to judge): the announcement end block the loop is expected to use
 // for attempt n; a change of the Go constants makes the steering less sharp, not the verdicts
@@ -467,15 +568,18 @@ const nKinds = 12
 func kindStep(r *lib.Rng, kindNo int, kd string, start uint64, attempt int, n, count int) stepIn {
 	annEnd := expectedAnnEnd(kd, start, attempt)
 	all := subset(r, n, n)
-	s := stepIn{Cur: u64(annEnd - 1), Wait: true, Ann: all, Att: true, Sig: true, Done: true}
+	s := stepIn{Height: annEnd - 1, Wait: true, Ann: all, Att: true, Sig: true, Done: true}
 	switch kindNo {
 	case 0: // success
 	case 1:
-		s.Cur = nil
+		s.CurErr = true
+		if r.Bool() { // the chain is past the announcement while the lookup fails
+			s.Height = annEnd + uint64(r.Intn(3))
+		}
 	case 2:
-		s.Cur = u64(annEnd) // announcement phase just passed: skipped
+		s.Height = annEnd // announcement phase just passed: skipped
 	case 3:
-		s.Cur = u64(annEnd + 1000)
+		s.Height = annEnd + 1000
 	case 4:
 		s.Wait = false
 	case 5:
@@ -502,9 +606,129 @@ func kindStep(r *lib.Rng, kindNo int, kd string, start uint64, attempt int, n, c
 
 func terminator(kd string) stepIn {
 	if kd == "sign" {
-		return stepIn{Cancel: 1}
+		return stepIn{Cancel: 1, CurErr: true, Height: 1 << 62}
 	}
-	return stepIn{Wait: false}
+	return stepIn{Wait: false, Height: 1 << 62}
+}
+
+// steering only: the announcement start block expected for attempt n
+func expectedAnnStart(kind string, start uint64, n int) uint64 {
+	if kind == "sign" {
+		return expectedAnnEnd(kind, start, n) - 5
+	}
+	return expectedAnnEnd(kind, start, n) - 10
+}
+
+// lateCase: a history on ONE loop over a chain whose height only grows.  The member starts late
+// (the chain is already past the announcement phase of the first k attempts, k = 1..3), takes
+// part in one or more attempts that fail (minority announcement, announcement / attempt /
+// done-check errors), and while it is busy the chain moves on: often it is already at or past the
+// announcement end block of the next attempt (exactly at it, one past it, several attempts past
+// it) when that attempt is evaluated.  Current-block lookups that fail are mixed in anywhere; the
+// chain may be past the announcement during such a lookup.  Steps the correct loop skips still
+// carry collaborator answers (mostly failing ones): a loop that wrongly enters them gets an
+// answer.  For the key-generation loop, which observes no height, being late shows as an
+// announcement that fails at once (its context is already cancelled by the end-block watcher).
+func lateCase(r *lib.Rng, kd string) input {
+	n := r.Range(3, 7)
+	counts := make([]int, n)
+	for i := range counts {
+		counts[i] = 1
+	}
+	g := layout(r, counts)
+	count := n/2 + 1
+	if kd == "dkg" {
+		count = n - 1
+	}
+	start := uint64(r.Intn(1 << 20))
+	if r.Chance(1, 6) {
+		start = r.U64() >> 3
+	}
+	in := input{Kind: kd, Ops: g, Count: count, Msg: fmt.Sprint(r.Intn(1 << 30)), Self: r.Range(1, n), Start: start}
+	k := r.Range(1, 3)
+	annEnd := func(a int) uint64 { return expectedAnnEnd(kd, start, a) }
+	// late by k attempts
+	var h uint64
+	switch r.Intn(3) {
+	case 0:
+		h = annEnd(k)
+	case 1:
+		h = annEnd(k+1) - 1
+	default:
+		h = annEnd(k) + uint64(r.Intn(int(annEnd(k+1)-annEnd(k))))
+	}
+	failures := r.Range(1, 3)
+	minority := func() []int { return subset(r, n, r.Range(0, count-1)) }
+	failing := func(s *stepIn) {
+		s.Wait, s.Att, s.Sig, s.Done = true, true, true, true
+		s.Ann = subset(r, n, n)
+		switch r.Intn(8) {
+		case 0:
+			s.AnnErr, s.Ann = true, nil
+		case 1:
+			s.Att = false
+		case 2:
+			s.Sig = false
+		case 3:
+			s.Done = false
+		case 4:
+			s.Wait = false
+		default:
+			s.Ann = minority()
+		}
+	}
+	a := 1
+	for len(in.Script) < 16 {
+		s := stepIn{Height: h}
+		late := annEnd(a) <= h
+		switch {
+		case r.Chance(1, 7):
+			// the lookup fails; the answers behind it are never asked for by the correct loop
+			s.CurErr = true
+			failing(&s)
+			if kd == "dkg" {
+				s.AnnErr, s.Ann = true, nil
+			}
+		case late:
+			if r.Chance(1, 4) {
+				s.Wait, s.Att, s.Sig, s.Done, s.Ann = true, true, true, true, subset(r, n, n)
+			} else {
+				failing(&s)
+			}
+			if kd == "dkg" {
+				s.AnnErr, s.Ann = true, nil
+			}
+		case failures > 0:
+			failures--
+			failing(&s)
+			// the chain moves on while the member is busy with the failing attempt
+			switch r.Intn(6) {
+			case 0:
+				h = annEnd(a + 1)
+			case 1:
+				h = annEnd(a+1) + 1
+			case 2:
+				h = annEnd(a+1) + uint64(r.Intn(40))
+			case 3:
+				h = annEnd(a+1+r.Range(1, 2*k+3)) + uint64(r.Intn(30))
+			case 4:
+				h = annEnd(a+1) - 1
+			default:
+				if e := expectedAnnStart(kd, start, a+1); e > h {
+					h = e
+				}
+			}
+		default:
+			s.Wait, s.Att, s.Sig, s.Done, s.Ann = true, true, true, true, subset(r, n, n)
+			in.Script = append(in.Script, s)
+			in.Script = append(in.Script, terminator(kd))
+			return in
+		}
+		in.Script = append(in.Script, s)
+		a++
+	}
+	in.Script = append(in.Script, terminator(kd))
+	return in
 }
 
 func randomCase(r *lib.Rng) input {
@@ -552,27 +776,28 @@ func randomCase(r *lib.Rng) input {
 		s := stepIn{Wait: !r.Chance(1, 10), Att: r.Chance(1, 4), Sig: !r.Chance(1, 5), Done: r.Chance(1, 3)}
 		switch r.Intn(10) {
 		case 0:
-			s.Cur = nil
+			s.CurErr = true
+			s.Height = annEnd - 3 + uint64(r.Intn(6))
 		case 1:
-			s.Cur = u64(annEnd)
+			s.Height = annEnd
 		case 2:
-			s.Cur = u64(annEnd + uint64(r.Intn(500)))
+			s.Height = annEnd + uint64(r.Intn(500))
 		case 3:
-			s.Cur = u64(annEnd - 1)
+			s.Height = annEnd - 1
 		case 4:
 			if annEnd >= 6 {
-				s.Cur = u64(annEnd - 6)
+				s.Height = annEnd - 6
 			} else {
-				s.Cur = u64(0)
+				s.Height = 0
 			}
 		default:
 			d := uint64(r.Intn(60))
 			if d > annEnd {
 				d = annEnd
 			}
-			s.Cur = u64(annEnd - d)
+			s.Height = annEnd - d
 			if annEnd-d == annEnd && annEnd > 0 {
-				s.Cur = u64(annEnd - 1)
+				s.Height = annEnd - 1
 			}
 		}
 		switch r.Intn(10) {
@@ -617,11 +842,13 @@ func main() {
 			fmt.Fprintln(os.Stderr, err)
 			os.Exit(2)
 		}
+		baseGoroutines = runtime.NumGoroutine()
 		run(in, em, "replay")
 		em.Close("replay", nil)
 		return
 	}
 	rng := lib.NewRng(o.Seed)
+	baseGoroutines = runtime.NumGoroutine()
 
 	// --- corpus: fixed regression histories (run first)
 	{
@@ -629,7 +856,7 @@ func main() {
 		g := layout(r, []int{1, 2, 3, 1})
 		all := []int{1, 2, 3, 4, 5, 6, 7}
 		ok := func(cur uint64) stepIn {
-			return stepIn{Cur: u64(cur), Wait: true, Ann: all, Att: true, Sig: true, Done: true}
+			return stepIn{Height: cur, Wait: true, Ann: all, Att: true, Sig: true, Done: true}
 		}
 		fail := func(cur uint64) stepIn {
 			s := ok(cur)
@@ -640,10 +867,23 @@ func main() {
 		run(input{Kind: "sign", Ops: g, Count: 7, Msg: "1234567", Self: 1, Start: 100,
 			Script: []stepIn{fail(100), ok(147), ok(200), fail(185), ok(230), terminator("sign")}}, em, "corpus-sign-skip-late")
 		run(input{Kind: "sign", Ops: g, Count: 7, Msg: "42", Self: 3, Start: 0,
-			Script: []stepIn{{Cur: nil}, {Cur: u64(0), Wait: false}, {Cur: u64(80), Wait: true, AnnErr: true},
-				{Cur: u64(90), Wait: true, Ann: []int{1, 2, 3}}, fail(170), ok(200), terminator("sign")}}, em, "corpus-sign-failure-kinds")
+			Script: []stepIn{{CurErr: true}, {Height: 0, Wait: false}, {Height: 80, Wait: true, AnnErr: true},
+				{Height: 90, Wait: true, Ann: []int{1, 2, 3}}, fail(170), ok(200), terminator("sign")}}, em, "corpus-sign-failure-kinds")
+		// late start (attempt 1 over), attempt 2 joined and failed (minority), chain then past
+		// attempt 3, attempt 4 succeeds — with and without failing answers behind the skipped steps
+		lateAns := stepIn{Height: 210, Wait: true, Ann: []int{3}, Att: true, Sig: true, Done: true}
+		lateAns3 := lateAns
+		lateAns3.Height = 420 // past the announcement phases of attempts 3..6
+		run(input{Kind: "sign", Ops: g, Count: 4, Msg: "100", Self: 1, Start: 200,
+			Script: []stepIn{ok(210), {Height: 210, Wait: true, Ann: []int{1}, Att: true, Sig: true, Done: true}, ok(300), ok(300),
+				terminator("sign")}}, em, "corpus-sign-late-start-fail-late-observation")
+		run(input{Kind: "sign", Ops: g, Count: 4, Msg: "100", Self: 1, Start: 200,
+			Script: []stepIn{lateAns, lateAns, lateAns3, lateAns3, lateAns3, lateAns3, ok(420), terminator("sign")}}, em, "corpus-sign-late-start-failing-answers")
+		run(input{Kind: "sign", Ops: g, Count: 4, Msg: "101", Self: 2, Start: 200,
+			Script: []stepIn{lateAns, {Height: 210, CurErr: true, Wait: true, Ann: []int{3}}, lateAns, fail(290), {Height: 500, CurErr: true, Wait: true, Ann: all, Att: true, Sig: true, Done: true},
+				ok(500), ok(500), ok(500), ok(500), ok(500), ok(500), terminator("sign")}}, em, "corpus-sign-late-start-lookup-errors")
 		run(input{Kind: "sign", Ops: g, Count: 4, Msg: "42", Self: 3, Start: 5,
-			Script: []stepIn{{Cur: u64(10), Wait: true, Ann: all, Att: true, Sig: true, Done: false, Cancel: 6}, terminator("sign")}}, em, "corpus-sign-cancel-in-done")
+			Script: []stepIn{{Height: 10, Wait: true, Ann: all, Att: true, Sig: true, Done: false, Cancel: 6}, terminator("sign")}}, em, "corpus-sign-cancel-in-done")
 		run(input{Kind: "dkg", Ops: g, Count: 6, Msg: "777", Self: 2, Start: 1000,
 			Script: []stepIn{fail(0), {Wait: true, AnnErr: true}, {Wait: true, Ann: []int{1, 2, 3}}, fail(0), ok(0), terminator("dkg")}}, em, "corpus-dkg-failures-then-success")
 		run(input{Kind: "dkg", Ops: g, Count: 6, Msg: "777", Self: 2, Start: 1000, Limit: 3,
@@ -695,13 +935,25 @@ func main() {
 		run(in, em, fmt.Sprintf("small-%d", i))
 	}
 
+	// --- late starters on a moving chain
+	nLate := o.Count(60, 1500)
+	for i := 0; i < nLate; i++ {
+		kd := "sign"
+		if i%4 == 3 {
+			kd = "dkg"
+		}
+		run(lateCase(rng.Fork(fmt.Sprintf("late%d", i)), kd), em, fmt.Sprintf("late-%d", i))
+	}
+
 	// --- random histories
 	nRand := o.Count(60, 1500)
 	for i := 0; i < nRand; i++ {
 		run(randomCase(rng.Fork(fmt.Sprintf("rand%d", i))), em, fmt.Sprintf("rand-%d", i))
 	}
 	em.Close("a case is one run of a real retry loop (signing or key generation) by one member, driven by a script of "+
-		"per-iteration collaborator answers (current block, wait, announcement, attempt, done checks, context cancellation); "+
+		"per-iteration collaborator answers (true chain height / current block, wait, announcement, attempt, done checks, context cancellation): "+
+		"a corpus, every sequence of <= 3 step kinds, late starters on a moving chain (k = 1..3 attempts already over, failing participation, "+
+		"the chain at or past the next announcement end, failing lookups), random histories; "+
 		"distinct by (kind, group, count, seed, member, limit, start block, script); non-trivial when the run has >= 3 loop "+
 		"iterations, >= 2 announcements and at least one attempt / done-check listening", nil)
 }
